@@ -2,6 +2,8 @@ pub mod c01;
 pub mod c02;
 pub mod c04;
 pub mod c11;
+pub mod c12;
+pub mod c13;
 pub mod val;
 pub mod val_enum;
 
@@ -16,6 +18,8 @@ pub fn all() -> Vec<Box<dyn Prop>> {
         Box::new(val::ValProp { which: crate::valcheck::Which::C09 }),
         Box::new(val::ValProp { which: crate::valcheck::Which::C10 }),
         Box::new(c11::C11),
+        Box::new(c12::C12),
+        Box::new(c13::C13),
     ]
 }
 
